@@ -19,7 +19,7 @@ var confirmedCounts = map[string]map[string][2]int{ // rule -> prop -> {default,
 	"R10": {"C02": {62, 71}, "C05": {62, 71}, "C10": {62, 71}},
 	"R11": {"C07": {10, 10}, "C08": {10, 10}},
 	"R12": {"C06": {16, 16}, "C07": {25, 27}, "C12": {10, 10}, "C13": {10, 10}},
-	"R13": {"C01": {5, 5}, "C03": {5, 5}, "C06": {9, 9}, "C09": {9, 9}},
+	"R13": {"C01": {5, 5}, "C03": {5, 5}, "C04": {1, 1}, "C06": {9, 9}, "C09": {9, 9}},
 	"R14": {"C01": {28, 28}, "C04": {28, 28}, "C09": {28, 28}},
 	"R15": {"C03": {4, 4}, "C04": {8, 8}, "C05": {2, 2}},
 	"R16": {"C05": {2, 2}},
@@ -31,7 +31,7 @@ var confirmedCounts = map[string]map[string][2]int{ // rule -> prop -> {default,
 	"R22": {"C16": {0, 19}},
 	"R23": {"C14": {0, 20}, "C16": {0, 20}},
 	"R24": {"C05": {4, 4}, "C06": {5, 5}, "C13": {2, 2}, "C15": {1, 3}},
-	"R25": {"C05": {10, 10}, "C06": {18, 18}, "C09": {17, 17}, "C13": {9, 9}, "C15": {1, 5}},
+	"R25": {"C05": {10, 10}, "C06": {23, 23}, "C09": {17, 17}, "C13": {10, 10}, "C15": {1, 6}},
 	"R26": {"C02": {1, 1}, "C03": {4, 4}, "C04": {3, 3}, "C05": {6, 6}, "C06": {5, 5}, "C13": {2, 2}},
 	"R27": {"C02": {6, 6}, "C03": {2, 2}, "C04": {3, 3}, "C05": {1, 1}, "C09": {12, 12}},
 	"R28": {"C01": {3, 3}, "C06": {15, 15}, "C08": {4, 4}, "C09": {5, 5}, "C13": {6, 6}},
@@ -42,8 +42,9 @@ var confirmedCounts = map[string]map[string][2]int{ // rule -> prop -> {default,
 	"R33": {"C02": {2, 2}, "C05": {2, 2}, "C06": {1, 1}},
 	"R34": {"C06": {2, 2}},
 	"R35": {"C12": {11, 11}, "C13": {3, 3}},
-	"R36": {"C01": {6, 6}, "C06": {6, 6}, "C07": {3, 3}, "C09": {8, 8}},
+	"R36": {"C01": {11, 11}, "C06": {11, 11}, "C07": {3, 3}, "C09": {13, 13}},
 	"R37": {"C01": {3, 3}, "C06": {3, 3}, "C10": {0, 0}},
+	"R38": {"C02": {6, 7}, "C07": {6, 7}},
 }
 
 func floorFor(rule string) func(cfg Config, prop string) int {
